@@ -1,0 +1,292 @@
+//go:build verif
+
+package concurrency
+
+// Contracts for govc, property C12 (runner / closer managers). Comment-only file, compiled only with -tags verif.
+// KERNEL proved: per-function view of each manager method and of every goroutine closure, with ghost counters for
+// "spawned / received / called / sent / cancelled" and the monotone ghost chdone[c] ("channel c is closed").
+// RunnerManager after fix da6eb5a: Add checks `running` and appends in ONE critical section of r.lock
+// ([C12.add.check.locked] [C12.add.locked] [C12.add.onesection]); Run does the CAS and takes its snapshot of r.runners in
+// ONE critical section ([C12.run.cas.locked] [C12.run.snapshot.atomic]) and afterwards spawns / counts only the local
+// snapshot ([C12.run.spawn.each] [C12.run.collect.all] are stated over `runners == snap`): Run's proof no longer depends on
+// r.runners being stable after its unlock. By mutual exclusion an Add is therefore either before the won CAS (its
+// runners are in the snapshot) or after it (rejected): paper step over the two critical sections.
+// NOT declared: `lock lock protects runners`. RunnerCloserManager.Run still reads len(c.mngr.runners) (closer.go:155) and
+// len(c.closers) (closer.go:165) without mngr.lock (D2); with the declaration its guard:read#0 fails at closer.go:155 and,
+// being assumed afterwards, makes the other ~180 obligations of that function vacuous (cover:loop0/1 fail). Consequence:
+// an unlocked RE-READ of r.runners after Run's unlock is not flagged by a guard obligation (see REPORT.md 4/6).
+//@ assume-text C12 monitor view without guard obligations: RunnerManager.runners / RunnerCloserManager.closers are not declared lock-protected (closer.go:155,165 read them unlocked, D2); fields are taken as unchanged between a function's entry and its critical section, the facts used across that gap (no nil element) are preserved by every writer ([C12.add.nonnil]); RunnerCloserManager.Run additionally assumes no Add / AddCloser changes them between its unlocked reads and its critical section
+//@ assume-text C12 channel semantics: a receive from a channel nobody sends on (RunnerCloserManager.stopped: [C12.chan.nosend], [C12.wait.stopped]) completes only after the channel was closed (at every recv assume chdone[arg0] in WaitUntilShutdown); closing a closed channel panics ([C12.chan.closeonce] asserted before every close); a timer channel (element type time.Time) is not the manager's chan struct{} closeFatalShutdown
+//@ assume-text C12 user callbacks: a Runner and a closer touch no memory of the managers (functype Runner: modifies nothing; opt go=ignore in RunnerCloserManager.Run); nil runners / closers are excluded by precondition (a nil function value panics in its goroutine)
+
+//@ ghost var chdone [int]bool
+
+//@ func functype github.com/dapr/kit/concurrency.Runner
+//@   skip
+//@   modifies nothing
+
+//@ type RunnerManager
+//@   ghost lk bool
+//@   lock lock protects lk
+
+//@ func NewRunnerManager
+//@   tags C12
+//@   modifies nothing
+//@   ensures [C12.new.runners] result != nil && fresh(result) && result.runners == runners && result.running.v == 0
+
+//@ func (*RunnerManager).Add
+//@   tags C12
+//@   requires r != nil
+//@   requires forall j :: 0 <= j && j < len(runner) ==> runner[j] != nil
+//@   ghost started bool
+//@   ghost locked bool
+//@   at entry ghost started = false
+//@   at entry ghost locked = false
+//@   ghost nlock int
+//@   at entry ghost nlock = 0
+//@   at before call Load#0 assert [C12.add.check.locked] heldw(r.lock) && nlock == 1
+//@   at call Load#0 ghost started = res0
+//@   at every call Lock ghost locked = true
+//@   at every call Lock ghost nlock = nlock + 1
+//@   at call Lock#0 label L
+//@   at before call Unlock#0 label U
+//@   ensures [C12.add.rejects] started ==> result == ErrManagerAlreadyStarted
+//@   ensures [C12.add.onesection] nlock == 1 && locked
+//@   requires forall j :: 0 <= j && j < len(r.runners) ==> r.runners[j] != nil
+//@   at every store runners assert [C12.add.locked] heldw(r.lock) && !started && nlock == 1
+//@   ensures [C12.add.rejected.unchanged] started ==> r.runners == old(r.runners)
+//@   ensures [C12.add.appends] !started ==> (result == nil && len(r.runners) == old(len(r.runners)) + len(runner)
+//@        && (forall j :: 0 <= j && j < old(len(r.runners)) ==> r.runners[j] == old(r.runners[j]))
+//@        && (forall k :: old(len(r.runners)) <= k && k < len(r.runners) ==> r.runners[k] == old(runner[k - len(r.runners)])))
+//@   ensures [C12.add.nonnil] forall j :: 0 <= j && j < len(r.runners) ==> r.runners[j] != nil
+//@   ensures r.running.v == old(r.running.v) && nolocks()
+//@   modifies r.runners, r.runners[0:cap(r.runners)], r.lk
+
+//@ func (*RunnerManager).Run$1
+//@   tags C12
+//@   opt go=frame-only
+//@   requires runner != nil && cancel != nil && ctx != nil
+//@   modifies nothing
+//@   ghost ncall int
+//@   ghost nsent int
+//@   ghost ncancel int
+//@   ghost rerr iface
+//@   ghost canceled bool
+//@   at entry ghost ncall = 0
+//@   at entry ghost nsent = 0
+//@   at entry ghost ncancel = 0
+//@   at entry ghost canceled = false
+//@   ghost checked bool
+//@   at entry ghost checked = false
+//@   at every before call Runner assert [C12.runner.once] ncall == 0 && nsent == 0 && ncancel == 0
+//@   at every before call Runner assert [C12.runner.ctx] arg0 == ctx
+//@   at every call Runner ghost ncall = ncall + 1
+//@   at every call Runner ghost rerr = res0
+//@   at every before call Is assert [C12.runner.canceled] arg0 == rerr && arg1 == context.Canceled
+//@   at every call Is ghost canceled = res0
+//@   at every call Is ghost checked = true
+//@   at every before send assert [C12.runner.reports] arg0 == errCh && nsent == 0 && ncall == 1 && (rerr != nil ==> checked) && arg1 == ((rerr != nil && !canceled) ? rerr : nil)
+//@   at every send ghost nsent = nsent + 1
+//@   at every before call CancelFunc assert [C12.runner.cancel.after] ncall == 1
+//@   at every call CancelFunc ghost ncancel = ncancel + 1
+//@   ensures [C12.runner.exactlyonce] ncall == 1 && nsent == 1 && ncancel == 1
+
+//@ func (*RunnerManager).Run
+//@   tags C12
+//@   requires r != nil && ctx != nil
+//@   requires forall j :: 0 <= j && j < len(r.runners) ==> r.runners[j] != nil
+//@   ghost won bool
+//@   ghost nlock int
+//@   ghost cassec int
+//@   ghost snap slice
+//@   ghost snapped bool
+//@   ghost spawned int
+//@   ghost recvd int
+//@   ghost got [int]iface
+//@   ghost ngot int
+//@   ghost dctx iface
+//@   ghost ncancel int
+//@   ghost joined iface
+//@   at entry ghost won = false
+//@   at entry ghost nlock = 0
+//@   at entry ghost cassec = 0
+//@   at entry ghost snapped = false
+//@   at entry ghost spawned = 0
+//@   at entry ghost recvd = 0
+//@   at entry ghost ngot = 0
+//@   at entry ghost ncancel = 0
+//@   at every call Lock ghost nlock = nlock + 1
+//@   at before call CompareAndSwap#0 assert [C12.run.cas.locked] heldw(r.lock) && nlock == 1
+//@   at call CompareAndSwap#0 ghost won = res0
+//@   at call CompareAndSwap#0 ghost cassec = nlock
+//@   at call CompareAndSwap#0 assert [C12.run.running] r.running.v != 0
+// the snapshot: the local `runners` is r.runners as it is at the Unlock that ends the critical section of the won CAS
+//@   at before call Unlock#1 assert [C12.run.snapshot.atomic] won && heldw(r.lock) && cassec == nlock && nlock == 1 && runners == r.runners
+//@   at before call Unlock#1 ghost snap = r.runners
+//@   at before call Unlock#1 ghost snapped = true
+//@   at call WithCancel#0 ghost dctx = res0
+//@   at before go#0 assert [C12.run.spawn.won] won && snapped && ncancel == 0 && nolocks()
+//@   at before go#0 assert [C12.run.spawn.each] 0 <= spawned && spawned < len(snap) && runners == snap && arg0 == runners[spawned]
+//@   at before go#0 assert [C12.run.spawn.ctx] ctx == dctx && errCh != nil && cap(errCh) == 0
+//@   at every go ghost spawned = spawned + 1
+//@   loop 0 invariant [C12.run.spawn.count] r == old(r) && won && snapped && runners == snap && ncancel == 0 && recvd == 0 && ngot == 0 && -1 <= rangeindex && spawned == rangeindex + 1 && rangeindex < len(snap) && ctx == dctx && dctx != nil && cancel != nil && errCh != nil && cap(errCh) == 0 && nolocks()
+//@   loop 0 invariant forall j :: 0 <= j && j < len(runners) ==> runners[j] != nil
+//@   at every before recv assert [C12.run.collect.chan] arg0 == errCh && recvd < spawned
+//@   at every recv ghost recvd = recvd + 1
+//@   at every recv ghost got = (err != nil) ? update(got, ngot, err) : got
+//@   at every recv ghost ngot = ngot + ((err != nil) ? 1 : 0)
+//@   loop 1 invariant [C12.run.collect.count] r == old(r) && won && snapped && runners == snap && ncancel == 0 && recvd == i && 0 <= i && i <= len(snap) && spawned == len(snap) && cancel != nil && nolocks()
+//@   loop 1 invariant [C12.run.collect.inv] len(errObjs) == ngot && fresh(errObjs) && (forall k :: 0 <= k && k < ngot ==> errObjs[k] == got[k])
+//@   at before call Join#0 assert [C12.run.collect.all] recvd == spawned && spawned == len(snap)
+//@   at before call Join#0 assert [C12.run.join.exact] len(arg0) == ngot && (forall k :: 0 <= k && k < ngot ==> arg0[k] == got[k])
+//@   at call Join#0 ghost joined = res0
+//@   at every before call CancelFunc assert [C12.run.cancel.last] recvd == spawned
+//@   at every call CancelFunc ghost ncancel = ncancel + 1
+//@   ensures [C12.run.once] !won <==> old(r.running.v) != 0
+//@   ensures [C12.run.once.rejected] !won ==> (result == ErrManagerAlreadyStarted && spawned == 0 && recvd == 0 && !snapped)
+//@   ensures [C12.run.result] won ==> (result == joined && snapped && spawned == len(snap) && recvd == spawned && ncancel == 1)
+//@   ensures nolocks()
+
+//@ type RunnerCloserManager
+//@   invariant [chans] self.mngr != nil && self.stopped != self.closeCh && self.stopped != self.closeFatalShutdown && self.closeCh != self.closeFatalShutdown
+
+//@ func (*RunnerCloserManager).WaitUntilShutdown
+//@   tags C12
+//@   requires c != nil
+//@   modifies nothing
+//@   at every before recv assert [C12.wait.stopped] arg0 == c.stopped
+//@   at every recv assume chdone[arg0]
+//@   at every before send assert [C12.chan.nosend] false
+//@   ensures [C12.wait.stopped] chdone[c.stopped]
+
+//@ func (*RunnerCloserManager).Close
+//@   tags C12
+//@   requires c != nil && inv(c)
+//@   requires c.closed.v == 0 ==> !chdone[c.closeCh]
+//@   requires c.running.v == 0 ==> !chdone[c.stopped]
+//@   ghost wonclosed bool
+//@   ghost wonrunning bool
+//@   at entry ghost wonclosed = false
+//@   at entry ghost wonrunning = false
+//@   at call CompareAndSwap#0 ghost wonclosed = res0
+//@   at call CompareAndSwap#1 ghost wonrunning = res0
+//@   at every before close assert [C12.chan.closeonce] !chdone[arg0]
+//@   at every close ghost chdone = update(chdone, arg0, true)
+//@   at before close#0 assert [C12.close.signal] arg0 == c.closeCh && wonclosed
+//@   at before close#1 assert [C12.close.neverran] arg0 == c.stopped && wonrunning
+//@   at every before send assert [C12.chan.nosend] false
+//@   at before call WaitUntilShutdown#0 assert [C12.close.atonce] wonrunning ==> chdone[c.stopped]
+//@   ensures [C12.close.once] wonclosed <==> old(c.closed.v) == 0
+//@   ensures [C12.close.signalled] wonclosed ==> chdone[c.closeCh]
+//@   ensures [C12.close.neverran.norun] wonrunning <==> old(c.running.v) == 0
+//@   ensures [C12.close.blocksrun] c.running.v != 0 && c.closed.v != 0
+//@   ensures [C12.close.waits] chdone[c.stopped]
+//@   ensures [C12.close.result] result == c.retErr
+
+//@ func (*RunnerCloserManager).Run$1
+//@   tags C12
+//@   requires c != nil && ctx != nil
+//@   modifies nothing
+//@   at every select assert [C12.closerunner.waits] selcases == 2 && selblocking && selhas(ctx.donech) && selhas(c.closeCh) && (forall x :: !selhassend(x))
+//@   at every before send assert [C12.chan.nosend] false
+//@   ensures [C12.closerunner.nil] result == nil
+
+//@ func (*RunnerCloserManager).Run$2
+//@   tags C12
+//@   requires c != nil && c.mngr != nil && ctx != nil
+//@   requires forall j :: 0 <= j && j < len(c.mngr.runners) ==> c.mngr.runners[j] != nil
+//@   ghost rr iface
+//@   ghost ncall int
+//@   ghost nsent int
+//@   at entry ghost ncall = 0
+//@   at entry ghost nsent = 0
+//@   at every before call Run assert [C12.forward.run] arg0 == c.mngr && arg1 == ctx && ncall == 0
+//@   at every call Run ghost rr = res0
+//@   at every call Run ghost ncall = ncall + 1
+//@   at every before send assert [C12.forward.result] arg0 == old(errCh) && arg1 == rr && ncall == 1 && nsent == 0
+//@   at every send ghost nsent = nsent + 1
+//@   ensures [C12.forward.once] ncall == 1 && nsent == 1
+
+//@ func (*RunnerCloserManager).Run$3
+//@   tags C12
+//@   requires closer != nil
+//@   ghost cr iface
+//@   ghost ncall int
+//@   ghost nsent int
+//@   at entry ghost ncall = 0
+//@   at entry ghost nsent = 0
+//@   at every before call funcvalue assert [C12.closer.once] ncall == 0
+//@   at every call funcvalue ghost cr = res0
+//@   at every call funcvalue ghost ncall = ncall + 1
+//@   at every before send assert [C12.closer.result] arg0 == old(errCh) && arg1 == cr && ncall == 1 && nsent == 0
+//@   at every send ghost nsent = nsent + 1
+//@   ensures [C12.closer.once] ncall == 1 && nsent == 1
+
+//@ func (*RunnerCloserManager).Run
+//@   tags C12
+//@   opt go=ignore
+//@   requires c != nil && inv(c) && ctx != nil
+//@   requires forall j :: 0 <= j && j < len(c.mngr.runners) ==> c.mngr.runners[j] != nil
+//@   requires forall j :: 0 <= j && j < len(c.closers) ==> c.closers[j] != nil
+//@   requires c.running.v == 0 ==> (!chdone[c.stopped] && !chdone[c.closeFatalShutdown])
+//@   ghost won bool
+//@   ghost gotrunners bool
+//@   ghost nsp int
+//@   ghost nres int
+//@   ghost nfwd int
+//@   ghost joined iface
+//@   ghost nfatal int
+//@   at entry ghost won = false
+//@   at entry ghost gotrunners = false
+//@   at entry ghost nsp = 0
+//@   at entry ghost nres = 0
+//@   at entry ghost nfwd = 0
+//@   at entry ghost nfatal = 0
+//@   at call CompareAndSwap#0 ghost won = res0
+//@   at every before close assert [C12.chan.closeonce] !chdone[arg0]
+//@   at every close ghost chdone = update(chdone, arg0, true)
+//@   at every before send assert [C12.chan.nosend] false
+//@   at every before close assert [C12.crun.close.which] arg0 == c.stopped || arg0 == c.closeFatalShutdown
+//@   at every before close assert [C12.crun.stopped] arg0 == c.stopped ==> (won && nolocks())
+//@   at every before close assert [C12.crun.stopped.last] arg0 == c.stopped ==> (gotrunners && nres == len(c.closers) && c.retErr == joined)
+//@   at every before close assert [C12.crun.fatal.release] arg0 == c.closeFatalShutdown ==> (nsp == len(c.closers) && nres == len(c.closers) - 1 && nfatal == 0)
+//@   at every close ghost nfatal = nfatal + ((arg0 == c.closeFatalShutdown) ? 1 : 0)
+//@   at before go#0 assert [C12.crun.forward] won && nfwd == 0 && !gotrunners && ctx == old(ctx) && errCh != nil
+//@   at go#0 ghost nfwd = nfwd + 1
+//@   at before recv#0 assert [C12.crun.runners.first] arg0 == errCh && nfwd == 1 && nsp == 0
+//@   at recv#0 ghost gotrunners = true
+//@   at before go#1 assert [C12.crun.closers.last] gotrunners && heldw(c.mngr.lock) && c.closing.v != 0
+//@   at before go#1 assert [C12.crun.closers.each] 0 <= nsp && nsp < len(c.closers) && arg0 == c.closers[nsp]
+//@   at go#1 ghost nsp = nsp + 1
+//@   loop 0 invariant [C12.crun.closers.last.inv] c == old(c) && inv(c) && won && gotrunners && nfwd == 1 && nres == 0 && nfatal == 0 && -1 <= rangeindex && nsp == rangeindex + 1 && rangeindex < len(c.closers) && heldw(c.mngr.lock) && c.closing.v != 0 && errCh != nil && c.closers == closers0 && fresh(errs) && len(errs) == len(c.closers) + 1 && errs[0] == rErr && !chdone[c.stopped] && !chdone[c.closeFatalShutdown]
+//@   ghost closers0 slice
+//@   at call Store#0 ghost closers0 = c.closers
+//@   at before recv#1 assert [C12.crun.collect] arg0 == errCh && nres < nsp
+//@   at recv#1 ghost nres = nres + 1
+//@   loop 1 invariant [C12.crun.collect.count] c == old(c) && inv(c) && won && gotrunners && nfwd == 1 && 1 <= i && i <= len(c.closers) + 1 && nres == i - 1 && nsp == len(c.closers) && heldw(c.mngr.lock) && c.closing.v != 0 && errCh != nil && c.closers == closers0 && fresh(errs) && len(errs) == len(c.closers) + 1 && errs[0] == rErr && !chdone[c.stopped]
+//@   loop 1 invariant [C12.crun.fatal.inv] (nfatal == 0 && !chdone[c.closeFatalShutdown] && (i <= len(c.closers) || len(c.closers) == 0)) || (nfatal == 1 && i == len(c.closers) + 1 && len(c.closers) > 0)
+//@   at before call Join#0 assert [C12.crun.join] nres == len(c.closers) && nsp == len(c.closers) && len(arg0) == len(c.closers) + 1 && arg0[0] == rErr
+//@   at call Join#0 ghost joined = res0
+//@   at every store retErr assert [C12.crun.reterr] arg0 == joined && heldw(c.mngr.lock)
+//@   ensures [C12.crun.once] !won <==> old(c.running.v) != 0
+//@   ensures [C12.crun.rejected] !won ==> (result == ErrManagerAlreadyStarted && nfwd == 0 && nsp == 0 && (forall x :: chdone[x] == old(chdone[x])))
+//@   ensures [C12.crun.result] won ==> (result == joined && c.retErr == joined && chdone[c.stopped] && nres == len(c.closers) && c.closing.v != 0)
+//@   ensures [C12.crun.fatal.once] nfatal <= 1 && (nfatal == 1 <==> (won && len(c.closers) > 0))
+
+//@ func NewRunnerCloserManager$2
+//@   tags C12
+//@   requires c != nil && c.clock != nil && c.fatalShutdownFn != nil && gracePeriod != nil && log != nil
+//@   ghost timerch ref
+//@   ghost fired bool
+//@   ghost nfatal int
+//@   at entry ghost fired = false
+//@   at entry ghost nfatal = 0
+//@   at before call NewTimer#0 assert [C12.fatal.grace] arg1 == *gracePeriod
+//@   at call C#0 ghost timerch = res0
+//@   at select#0 assert [C12.fatal.waits] selcases == 2 && selblocking && selhas(timerch) && selhas(c.closeFatalShutdown) && (forall x :: !selhassend(x))
+//@   at select#0 assume timerch != c.closeFatalShutdown
+//@   at select#0 ghost fired = (res0 >= 0 && selchan == timerch)
+//@   at every before call funcvalue assert [C12.fatal.onlyif] fired && nfatal == 0
+//@   at every call funcvalue ghost nfatal = nfatal + 1
+//@   at every before send assert [C12.chan.nosend] false
+//@   ensures [C12.fatal.iff] (nfatal == 1) <==> fired
